@@ -121,6 +121,7 @@ FUNCS = [
     Fn("set_ptr", "chunk", "st", group="Footer", anchor="impl ChunkFooter"),
     Fn("try_alloc_layout_fast", "bump", "st", group="Fast"),
     Fn("reset", "bump", "st", group="Reset"),
+    Fn("new_chunk", "assocst", "st", group="NewChunk"),
     Fn("is_last_allocation", "bump", "read", group="Realloc"),
     Fn("try_alloc_layout", "bump", "st", group="Realloc"),
     Fn("dealloc", "bump", "st", group="Realloc", anchor="unsafe fn is_last_allocation"),
@@ -223,7 +224,7 @@ class Tr:
             self.sv, self.sty, self.bindS, self.pureS = "s", "St", "bindO", "pureO"
         if fn.kind == "rawvec":
             self.lead, self.lead_names = ["(c : V.Cfg)"], ["c"]
-        elif fn.kind in ("bump", "chunk"):
+        elif fn.kind in ("bump", "chunk", "assocst"):
             self.lead, self.lead_names = ["(E M : Nat)"], ["E", "M"]
         elif fn.kind == "assoc":
             self.lead, self.lead_names = ["(M : Nat)"], ["M"]
@@ -267,10 +268,11 @@ class Tr:
             raise Untranslatable(f"return of {term} : {ty} from a function returning Result<_, CollectionAllocErr>")
         return self.wrap(f"Outcome.ok {term}")
 
-    def bind_call(self, call, callee_mode, k, env, ty):
-        """call = lean application without the state argument; result bound to a fresh name"""
+    def bind_call(self, call, callee_mode, k, env, ty, footers=True):
+        """call = lean application without the state argument; result bound to a fresh name.
+        footers=False: a primitive that changes no footer field (global allocator call, memory copy)"""
         env2, v = env.bind("r", ty)
-        if callee_mode == "st":
+        if callee_mode == "st" and footers:
             self.bump_version()
         if ty == CHUNK:
             self.chunk_ver[v] = self.version
@@ -512,6 +514,9 @@ class Tr:
             if n == "Err" and len(pa) == 1:
                 return "none", res("?")
             if segs[-2:] == ["NonNull", "new_unchecked"] and len(pa) == 1: return pa[0]
+            if segs[-2:] == ["Cell", "new"] and len(pa) == 1: return pa[0]
+            if segs[-2:] == ["NonNull", "new"] and len(pa) == 1 and pa[0][1] == NAT:
+                return f"(Rs.nonNullNew {pa[0][0]})", opt(NAT)
             if segs[-2:] == ["NonNull", "from"] and len(pa) == 1: return pa[0]
             if segs[-2:] == ["ptr", "eq"] and len(pa) == 2 and pa[0][1] == CHUNK and pa[1][1] == CHUNK:
                 return f"({paren(pa[0][0])}.footer == {paren(pa[1][0])}.footer)", BOOL
@@ -535,6 +540,17 @@ class Tr:
                     d[f] = p[0]
                 if set(d) != {"new_size_without_footer", "size", "align"}: return None
                 return f"(Details.mk {d['new_size_without_footer']} {d['align']} {d['size']})", DETAILS
+            if segs[-1] == "ChunkFooter":
+                d = {}
+                for f, fe in fs:
+                    p = self.pure(fe, env)
+                    if p is None: return None
+                    d[f] = p
+                if set(d) != {"data", "layout", "prev", "ptr", "allocated_bytes"} or d["layout"][1] != LAYOUT or d["prev"][1] != CHUNK:
+                    return None
+                # the `prev` link is not a field of the model's chunk: the chain is the arena's list (see Rs.set_current_footer)
+                return (f"(Chunk.mk {d['data'][0]} {paren(d['layout'][0])}.size {paren(d['layout'][0])}.align "
+                        f"{d['ptr'][0]} {d['allocated_bytes'][0]})"), CHUNK
             return None
         if k == "macro" and e[1] == "matches":
             scrut, pat, guard = e[2]
@@ -828,11 +844,18 @@ class Tr:
             if pp is not None:
                 return k(pp[0], pp[1], env_)
             if segs[-2:] == ["ptr", "copy_nonoverlapping"] and len(pa) == 3:
-                return self.bind_call(f"Rs.copy_nonoverlapping {sp(pa)}", "st", k, env_, UNIT)
+                return self.bind_call(f"Rs.copy_nonoverlapping {sp(pa)}", "st", k, env_, UNIT, footers=False)
             if segs == ["dealloc_chunk_list"] and len(pa) == 1 and pa[0][1] == CHUNKLIST:
                 return self.bind_call(f"Rs.dealloc_chunk_list {sp(pa)}", "st", k, env_, UNIT)
             if segs[-2:] == ["ptr", "copy"] and len(pa) == 3:
-                return self.bind_call(f"Rs.copy {sp(pa)}", "st", k, env_, UNIT)
+                return self.bind_call(f"Rs.copy {sp(pa)}", "st", k, env_, UNIT, footers=False)
+            if segs == ["alloc"] and len(pa) == 1 and pa[0][1] == LAYOUT:
+                # the global allocator
+                return self.bind_call(f"Rs.malloc E {sp(pa)}", "st", k, env_, NAT, footers=False)
+            if segs[-2:] == ["ptr", "write"] and len(pa) == 2 and pa[0][1] == NAT and pa[1][1] == CHUNK:
+                # writing a whole `ChunkFooter` value to an address: from here on that address *is* this footer
+                return self.check(f"{paren(pa[1][0])}.footer = {pa[0][0]}", "footer written at an address that is not the end of its chunk",
+                                  k(pa[1][0], CHUNK, env_))
             g = FN_BY_KIND.get(("free", n)) if len(segs) == 1 else (FN_BY_KIND.get(("assoc", n)) if segs[0] == "Self" else None)
             if g is not None:
                 return self.call_fn(g, None, pa, env_, k)
@@ -846,7 +869,7 @@ class Tr:
         lead = []
         if g.kind == "rawvec":
             lead = ["c"]
-        elif g.kind in ("bump", "chunk"):
+        elif g.kind in ("bump", "chunk", "assocst"):
             lead = ["E", "M"]
         elif g.kind == "assoc":
             lead = ["M"]
@@ -1014,6 +1037,18 @@ class Tr:
                     return f"let {ln} := {t};\n{go(i + 1, e3)}"
                 return self.E(val, env_, K(ka))
             if st[0] == "expr":
+                ex = st[1]
+                if ex[0] == "call" and ex[1][0] == "path" and ex[1][1][-2:] == ["ptr", "write"] and len(ex[2]) == 2 \
+                        and ex[2][0][0] == "path" and len(ex[2][0][1]) == 1 and ex[2][0][1][0] in env_.d:
+                    pname = ex[2][0][1][0]
+
+                    def kw(t, ty, e2):
+                        if ty != CHUNK:
+                            return go(i + 1, e2)
+                        e3, ln = e2.bind(pname, CHUNK)
+                        self.chunk_ver[ln] = self.version
+                        return f"let {ln} := {t};\n{go(i + 1, e3)}"
+                    return self.E(ex, env_, K(kw))
                 return self.E(st[1], env_, K(lambda t, ty, e2: go(i + 1, e2)))
             raise Untranslatable(f"statement {st[0]}")
         return "(" + go(0, env) + ")"
@@ -1183,7 +1218,7 @@ def translate_all(repo):
 
 
 GROUP_IMPORTS = {"Arith": [], "Details": ["Arith"], "Limit": ["Arith"], "Footer": ["Arith"], "Fast": ["Arith", "Footer"],
-                 "Realloc": ["Arith", "Fast", "Footer", "Limit"], "RawVec": [], "Reset": ["Arith", "Footer"], "Rewind": ["Arith", "Footer", "Limit", "Fast", "Realloc"]}
+                 "Realloc": ["Arith", "Fast", "Footer", "Limit"], "RawVec": [], "Reset": ["Arith", "Footer"], "Rewind": ["Arith", "Footer", "Limit", "Fast", "Realloc"], "NewChunk": ["Arith"]}
 GROUP_PRELUDE = {"RawVec": "BumpVerif.Model.RsVec"}
 
 
